@@ -111,4 +111,24 @@ mod verif_replay_expr_dm {
         assert_eq!(eval_with_timeout("[1,2,4][2]"), Ok(Ok("4".to_string())));
         assert_eq!(eval_with_timeout("v[0]"), Ok(Ok("1".to_string())));
     }
+
+    /// C10: the value does not depend on incidental whitespace or redundant parentheses
+    #[test]
+    fn verif_replay_whitespace_and_parentheses() {
+        for (a, b) in [
+            ("10 - 3 - 2", "10-3-2"),
+            ("10 - 3", "10-3"),
+            ("1 + 2 * 3", "1+2*3"),
+            ("1 + 2 * 3", " 1 +  2\t* 3 "),
+            ("1 + 2 * 3", "1 + (2 * 3)"),
+            ("1 + 2 * 3", "((1) + ((2) * (3)))"),
+            ("2 * -3", "2*-3"),
+            ("4 - -3", "4--3"),
+            ("1 < 2", "1<2"),
+            ("a = 5", "a=5"),
+        ] {
+            assert_eq!(eval(a), eval(b), "`{}` and `{}` must have the same value", a, b);
+            assert!(eval(a).is_ok(), "`{}` must evaluate: {:?}", a, eval(a));
+        }
+    }
 }
